@@ -100,6 +100,9 @@ pub fn run(prop: &str, a: &Args, rep: &mut Report) {
     let mut rng = Rng::derive(a.seed, a.shard, 3);
     let mut li = 0u64;
     for (i, n) in mix.long_lens.iter().enumerate() {
+        if cfg!(miri) {
+            break; // far too slow under the interpreter-of-the-interpreter
+        }
         for variant in 0..4u64 {
             // spread (length, variant) cells over shards
             li += 1;
